@@ -1,3 +1,4 @@
+import DcmVerif.Props.Source_extract
 import DcmVerif.Proofs.Extract
 /-! Property theorems for C15. Statements only; proofs are by reference to `Proofs/`. -/
 set_option autoImplicit false
